@@ -70,13 +70,13 @@ Kws == CASE KwMode = "full" -> {Kw(d, s, g) : d \in Defaults, s \in Skips, g \in
          [] OTHER           -> {Kw("absent", "absent", FALSE), Kw("obj", "absent", FALSE),
                                 Kw("absent", "exact", TRUE), Kw("none", "glomerror", FALSE)}
 
-\* what the laws say about the mechanism's outcome, and the outcome of the mechanism with the
-\* candidate repairs (both only for the replay harness; the machine itself is GlomErrors)
-VARIABLES lawv, xfix
-mcvars == <<vars, lawv, xfix>>
+\* what the laws say about the mechanism's outcome (for the replay harness only; the machine
+\* itself is GlomErrors)
+VARIABLE lawv
+mcvars == <<vars, lawv>>
 
 Init ==
-  /\ lawv = "" /\ xfix = NoRec
+  /\ lawv = ""
   /\ ctxs = <<>> /\ leaf = GlomDoc("MatchError") /\ kw = NoKw /\ x = NoRec /\ arr = NoRec
   /\ lvl = 0 /\ ph = "choose" /\ hist = <<>>
 
@@ -92,10 +92,9 @@ Choose ==
   /\ UNCHANGED <<kw, x, arr, lvl, hist>>
 
 Next ==
-  \/ (Choose \/ RaiseAt(Len(ctxs)) \/ Travel) /\ UNCHANGED <<lawv, xfix>>
+  \/ (Choose \/ RaiseAt(Len(ctxs)) \/ Travel) /\ UNCHANGED lawv
   \/ \E k \in Kws : /\ TopLevel(k)
                      /\ lawv' = LawVerdict(kw', arr', x', leaf.id)
-                     /\ xfix' = TopOutcome(TRUE, kw', arr', leaf.id)
 Spec == Init /\ [][Next]_mcvars
 \* the recorded verdict is exactly the conjunction of the law invariants
 VerdictConsistent == (ph = "done" /\ lawv = "") =>
